@@ -2,6 +2,7 @@ package main
 
 import (
 	"fmt"
+	"go/token"
 	"go/types"
 	"strings"
 
@@ -275,6 +276,8 @@ func c04(c *Ctx) {
 	if nh < 2 {
 		c.undecided(r6, "floor", "History implementations not found")
 	}
+	c04ScanBounds(c, "C04.7/clamped-scan-bound-is-inclusive")
+	c04NodeRefMirrors(c, "C04.8/node-reference-mirrors-child")
 	r := "C04.5/read-pipeline"
 	for _, n := range []string{storeT + "Get", storeT + "GetWithPrefix", "embedded/store.(*Snapshot).Get", "embedded/store.(*Snapshot).GetWithPrefix", otxT + "Get", otxT + "GetWithPrefix"} {
 		g := c.mustFn(r, n)
@@ -375,3 +378,124 @@ func collectFuncs(v ssa.Value, out map[string]bool) {
 }
 
 func desc2(v ssa.Value) string { return desc(v) }
+
+// c04ScanBounds: Snapshot.NewReader clamps the caller's seek and end keys to the range of keys carrying the prefix.
+// The clamped bound (the prefix itself, or the greatest prefixed key) is a key that matches the prefix, so whenever a
+// key bound is replaced its inclusive flag is set; when it is kept the caller's flag is kept. Decided on the phi pair
+// feeding (Reader.endKey, Reader.inclusiveEnd) and (Reader.seekKey, Reader.inclusiveSeek).
+func c04ScanBounds(c *Ctx, r string) {
+	f := c.mustFn(r, "embedded/tbtree.(*Snapshot).NewReader")
+	if f == nil {
+		return
+	}
+	stored := func(field string) ssa.Value {
+		var v ssa.Value
+		for _, in := range sites(f, storeTo("Reader."+field)) {
+			v = in.(*ssa.Store).Val
+		}
+		return v
+	}
+	specLoad := func(v ssa.Value, field string) bool {
+		ld, ok := v.(*ssa.UnOp)
+		if !ok || ld.Op != token.MUL {
+			return false
+		}
+		fa, ok := ld.X.(*ssa.FieldAddr)
+		return ok && structName(fa.X.Type()) == "ReaderSpec" && fieldName(fa.X.Type(), fa.Field) == field
+	}
+	n := 0
+	for _, pair := range [][4]string{{"endKey", "inclusiveEnd", "EndKey", "InclusiveEnd"}, {"seekKey", "inclusiveSeek", "SeekKey", "InclusiveSeek"}} {
+		k, b := stored(pair[0]), stored(pair[1])
+		if k == nil || b == nil {
+			c.undecided(r, fnName(f)+":"+pair[0], "stores of the reader bounds not found")
+			continue
+		}
+		var bad []string
+		var aligned func(k, b ssa.Value, depth int)
+		aligned = func(k, b ssa.Value, depth int) {
+			if depth > 6 {
+				bad = append(bad, "nesting too deep to decide")
+				return
+			}
+			if specLoad(k, pair[2]) {
+				n++
+				if !specLoad(b, pair[3]) {
+					bad = append(bad, "the caller's "+pair[2]+" is kept with "+pair[1]+" = "+desc(b))
+				}
+				return
+			}
+			if kp, ok := k.(*ssa.Phi); ok {
+				bp, ok := b.(*ssa.Phi)
+				if !ok || bp.Block() != kp.Block() {
+					bad = append(bad, pair[0]+" is chosen per path but "+pair[1]+" ("+desc(b)+") is not")
+					return
+				}
+				for i := range kp.Edges {
+					aligned(kp.Edges[i], bp.Edges[i], depth+1)
+				}
+				return
+			}
+			// a replaced bound
+			n++
+			if d := desc(b); d != "const:true" {
+				bad = append(bad, pair[0]+" is replaced by "+desc(k)+" while "+pair[1]+" stays "+d)
+			}
+		}
+		aligned(k, b, 0)
+		c.check(len(bad) == 0, r, fnName(f)+":"+pair[0]+"/"+pair[1], c.pos(f.Pos()), "on every path a replaced "+pair[0]+" comes with "+pair[1]+"=true and a kept one with the caller's flag",
+			strings.Join(bad, "; ")+": a key equal to the clamped bound carries the prefix and is dropped from the scan")
+	}
+	if n < 6 {
+		c.undecided(r, "floor", fmt.Sprintf("%d bound choices analysed (kept/replaced x asc/desc x seek/end = 8 confirmed by hand)", n))
+	}
+}
+
+// c04NodeRefMirrors: a node reference stands for a child that is not in memory; tree walks, flush decisions and the
+// reclaiming of old node-log files read the child's minimum key, logical time, offset and minimum offset from the
+// reference. Wherever a reference field is filled from an accessor of a node it is the accessor of that same quantity.
+func c04NodeRefMirrors(c *Ctx, r string) {
+	want := map[string]string{"_minKey": "minKey", "_ts": "ts", "off": "offset", "_minOff": "minOffset"}
+	accessor := map[string]bool{"minKey": true, "ts": true, "offset": true, "minOffset": true}
+	n := 0
+	for _, fn := range c.allFns {
+		if !fnInPkgs(fn, []string{"embedded/tbtree"}) || len(fn.Blocks) == 0 {
+			continue
+		}
+		per := 0
+		allInstrs(fn, false, func(in ssa.Instruction) {
+			st, ok := in.(*ssa.Store)
+			if !ok {
+				return
+			}
+			fa, ok := st.Addr.(*ssa.FieldAddr)
+			if !ok || structName(fa.X.Type()) != "nodeRef" {
+				return
+			}
+			fld := fieldName(fa.X.Type(), fa.Field)
+			w, tracked := want[fld]
+			if !tracked {
+				return
+			}
+			call, ok := st.Val.(*ssa.Call)
+			if !ok {
+				return
+			}
+			m := ""
+			if call.Call.IsInvoke() {
+				m = call.Call.Method.Name()
+			} else if sc := call.Call.StaticCallee(); sc != nil && sc.Signature.Recv() != nil {
+				m = sc.Name()
+			}
+			if !accessor[m] {
+				return
+			}
+			n++
+			per++
+			c.check(m == w, r, fmt.Sprintf("%s:nodeRef.%s#%d", fnName(fn), fld, per), c.pos(st.Pos()), fld+" = child."+m+"()",
+				"nodeRef."+fld+" is filled from "+m+"() of the child instead of "+w+"(): what is read through the reference is not what the child reports")
+		})
+	}
+	if n < 4 {
+		c.undecided(r, "floor", fmt.Sprintf("%d reference fields filled from node accessors found (4 in innerNode.writeTo confirmed by hand)", n))
+	}
+}
